@@ -48,6 +48,15 @@ import (
 // the single call is confirmed serially in fresh processes and reported with the one-call program as
 // its replay.
 //
+// Round 6 (seed C20-max-assoc-ties-map-order: max() over a string-keyed array, candidates collected from the
+// Go map, first of the tied maxima wins): the class is not "functions that sort" but every built-in whose
+// result depends on the order in which it visits the entries — and max lives in std/php, not std/php/array.
+// The stream now calls every function of the registered function table (see notCalled for the few it does
+// not), with arrays whose values tie at the top / bottom / everywhere and are distinguishable in the output;
+// the functions outside std/php/array get a reduced matrix (restArrays × coreShapes, 3 executions per run).
+// Results are printed as gettype:json together with the repetition that first showed them; the oracle is
+// byte-identical behaviour between runs (no "one result per call inside a run": define, ini_set … keep state).
+//
 // Correspondence: `ksort` / `krsort` on every 2- and 3-element subset of a tie-rich key pool × flags
 // against `Model.SortKeys.ksort` (driver command `ksort`): the regenerated fact says the comparator is
 // the raw string order for every flag, the model sorts by it, the real array must come out in that order.
@@ -156,39 +165,68 @@ var tieArrays = []tieArray{
 	{"nested-rows", `['p' => [1, 2], 'q' => [1, 2], 'o' => ['k' => 1], 'n' => ['k' => 1], 'm' => ['k' => '1'], 'r1' => ['id' => 1, 'n' => 'x'], 'r2' => ['id' => 1, 'n' => 'y'], 'r3' => ['id' => '1.0', 'n' => 'x'], 'r4' => ['id' => 'a', 'n' => 'z']]`},
 	{"list-scalars", `['1', '1.0', ' 1', '01', '1e0', 1, 1.0, true, 'Ab', 'aB', 'AB', 'width', 'depth']`},
 	{"list-rows", `[[2, 'a'], [1, 'b'], [2, 'c'], [1, 'd'], ['id' => 1, 'n' => 'x'], ['id' => '1.0', 'n' => 'x']]`},
+	// round 6: values that tie under every comparison a reduction may use (numeric, loose, string after
+	// trimming) and are distinguishable in the output (type and spelling), eight or more of them, at the
+	// top / at the bottom / everywhere: the first-of-ties of max, min, array_search, in_array …
+	{"max-ties", `['ann' => 3, 'bob' => 3.0, 'cleo' => '3', 'dave' => '3.0', 'erin' => ' 3', 'fred' => '3e0', 'gina' => '03', 'hank' => '+3', 'ivy' => 3.0, 'low' => 1, 'lower' => true]`},
+	{"min-ties", `['ann' => 3, 'bob' => 3.0, 'cleo' => '3', 'dave' => '3.0', 'erin' => ' 3', 'fred' => '3e0', 'gina' => '03', 'hank' => '+3', 'ivy' => 3.0, 'high' => 7, 'higher' => '9']`},
+	{"all-ties", `['ann' => 1, 'bob' => 1.0, 'cleo' => '1', 'dave' => '1.0', 'erin' => true, 'fred' => ' 1', 'gina' => '1e0', 'hank' => '01', 'ivy' => '+1', 'jack' => 1.0]`},
 }
+
+// the arrays the functions outside std/php/array are called with (ties among values, among non-numeric keys,
+// among nested rows, a list) and the round-6 arrays, which every function gets with the shapes of the reduced
+// matrix only (the flag enumeration is about comparators of sorts; the older arrays carry it)
+var restArrays = map[string]bool{"nonnum-keys": true, "equal-values": true, "nested-rows": true, "list-scalars": true, "max-ties": true, "min-ties": true, "all-ties": true}
+var round6Arrays = map[string]bool{"max-ties": true, "min-ties": true, "all-ties": true}
 
 const reorderB = `['depth' => 9, 'Ab' => 9, '1.0' => 9, 'x' => '1', 'q' => [1, 2], 'r2' => ['id' => 1, 'n' => 'y'], 0 => '1', 1 => 'aB']`
 
 type argShape struct {
 	ID   string
 	Args string
+	Core bool // part of the reduced matrix used for the functions outside std/php/array
 }
 
+// the shapes every registered function is called with (the full list, 16 flag values included, is kept for
+// the functions implemented in std/php/array and those holding a sort fact)
+var coreShapes = map[string]bool{"a": true, "a,0": true, "a,1": true, "a,2": true, "a,b": true, "a,str": true, "a,cmp": true,
+	"a,key": true, "key,a": true, "cmp,a": true, "str,a": true, "int,a": true, "subject,a": true, "b,a": true,
+	"a,1,2": true, "a,1,true": true, "a,b,cmp": true, "a,str,true": true, "a,str,str": true,
+	"str,str,a": true, "a,str,subject": true, "str,a,subject": true, "a,a,subject": true, "str,a,true": true}
+
 func argShapes() []argShape {
-	s := []argShape{{"a", "$a"}}
+	s := []argShape{{ID: "a", Args: "$a"}}
 	for n := 0; n <= 15; n++ {
-		s = append(s, argShape{fmt.Sprintf("a,%d", n), fmt.Sprintf("$a, %d", n)})
+		s = append(s, argShape{ID: fmt.Sprintf("a,%d", n), Args: fmt.Sprintf("$a, %d", n)})
 	}
 	s = append(s,
-		argShape{"a,b", "$a, $b"},
-		argShape{"a,str", "$a, '1.0'"},
-		argShape{"a,cmp", "$a, $cmp"},
-		argShape{"a,zero", "$a, $zero"},
-		argShape{"a,key", "$a, $key"},
-		argShape{"key,a", "'c20key', $a"},
-		argShape{"cmp,a", "'c20cmp', $a"},
-		argShape{"str,a", "'1.0', $a"},
-		argShape{"int,a", "1, $a"},
-		argShape{"subject,a", "$s, $a"},
-		argShape{"b,a", "$b, $a"},
-		argShape{"a,1,2", "$a, 1, 2"},
-		argShape{"a,1,true", "$a, 1, true"},
-		argShape{"a,b,cmp", "$a, $b, $cmp"},
-		argShape{"a,cmp,1", "$a, $cmp, 1"},
-		argShape{"a,str,true", "$a, '1', true"},
-		argShape{"a,str,str", "$a, 'id', 'n'"},
+		argShape{ID: "a,b", Args: "$a, $b"},
+		argShape{ID: "a,str", Args: "$a, '1.0'"},
+		argShape{ID: "a,cmp", Args: "$a, $cmp"},
+		argShape{ID: "a,zero", Args: "$a, $zero"},
+		argShape{ID: "a,key", Args: "$a, $key"},
+		argShape{ID: "key,a", Args: "'c20key', $a"},
+		argShape{ID: "cmp,a", Args: "'c20cmp', $a"},
+		argShape{ID: "str,a", Args: "'1.0', $a"},
+		argShape{ID: "int,a", Args: "1, $a"},
+		argShape{ID: "subject,a", Args: "$s, $a"},
+		argShape{ID: "b,a", Args: "$b, $a"},
+		argShape{ID: "a,1,2", Args: "$a, 1, 2"},
+		argShape{ID: "a,1,true", Args: "$a, 1, true"},
+		argShape{ID: "a,b,cmp", Args: "$a, $b, $cmp"},
+		argShape{ID: "a,cmp,1", Args: "$a, $cmp, 1"},
+		argShape{ID: "a,str,true", Args: "$a, '1', true"},
+		argShape{ID: "a,str,str", Args: "$a, 'id', 'n'"},
+		// round 6: the array in third position, as search / replacement list, with a strictness flag
+		argShape{ID: "str,str,a", Args: "'1', 'x', $a"},
+		argShape{ID: "a,str,subject", Args: "$a, 'x', $s"},
+		argShape{ID: "str,a,subject", Args: "'1', $a, $s"},
+		argShape{ID: "a,a,subject", Args: "$a, $a, $s"},
+		argShape{ID: "str,a,true", Args: "'3', $a, true"},
 	)
+	for i := range s {
+		s[i].Core = coreShapes[s[i].ID]
+	}
 	return s
 }
 
@@ -204,13 +242,14 @@ func reorderPrelude(used map[string]bool) string {
 		}
 	}
 	fmt.Fprintf(&sb, "function c20b() { return %s; }\n", reorderB)
-	sb.WriteString(`function c20o($k) { static $seen = []; if (!isset($seen[$k])) { $seen[$k] = 1; echo '#', $k, "\n"; } }
-function c20e($e) { return 'T:' . get_class($e) . ':' . str_replace("\n", ' ', $e->getMessage()); }
+	sb.WriteString(`function c20o($k, $rep) { static $seen = []; if (!isset($seen[$k])) { $seen[$k] = 1; echo '#', $k, ' @', $rep, "\n"; } }
+function c20tick($d = 1) { static $n = 0; $n += $d; return $n; }
+function c20e($e) { $m = $e->getMessage(); $i = strpos($m, "\nstack: goroutine"); if ($i !== false) { $m = substr($m, 0, $i) . ' [go stack]'; } return 'T:' . get_class($e) . ':' . str_replace("\n", ' ', $m); }
 function c20cmp($p, $q = 0) { return strlen(json_encode($p)) - strlen(json_encode($q)); }
 function c20key($p, $q = 0) { return strlen(json_encode($p)); }
-$cmp = function($p, $q = 0) { return strlen(json_encode($p)) - strlen(json_encode($q)); };
-$zero = function($p, $q = 0) { return 0; };
-$key = function($p, $q = 0) { return strlen(json_encode($p)); };
+$cmp = function($p, $q = 0) { c20tick(); return strlen(json_encode($p)) - strlen(json_encode($q)); };
+$zero = function($p, $q = 0) { c20tick(); return 0; };
+$key = function($p, $q = 0) { c20tick(); return strlen(json_encode($p)); };
 `)
 	return sb.String()
 }
@@ -224,14 +263,23 @@ func arrIndex(id string) int {
 	return 0
 }
 
-// one call: `#<n> <result>|<array afterwards>` or `#<n> T:<class>:<message>`, printed when first seen
-func reorderCall(n int, fn string, arr tieArray, sh argShape) string {
+// one call: `#<n> <result>|<array afterwards> @<rep>` or `#<n> T:<class>:<message> @<rep>`, printed when first seen
+// together with the number of the repetition that showed it. guard: the call passes a closure to a function
+// that is not known to take callbacks — its result is looked at only when the closure was invoked (a closure
+// that is merely converted to a string prints heap addresses: known finding C20-closure-to-string-address).
+func reorderCall(n int, fn string, arr tieArray, sh argShape, guard bool) string {
 	subj := ""
 	if strings.Contains(sh.Args, "$s") {
 		subj = " $s = implode(' ', array_keys($a)) . ' ' . json_encode(array_values($a));"
 	}
-	return fmt.Sprintf("$a = c20a%d(); $b = c20b();%s try { $r = %s(%s); $o = json_encode($r) . '|' . json_encode($a); } catch (\\Throwable $e) { $o = c20e($e); } c20o('%d ' . $o);\n",
-		arrIndex(arr.ID), subj, fn, sh.Args, n)
+	res := "$o = gettype($r) . ':' . json_encode($r) . '|' . json_encode($a);"
+	pre := ""
+	if guard && (strings.Contains(sh.Args, "$cmp") || strings.Contains(sh.Args, "$zero") || strings.Contains(sh.Args, "$key")) {
+		pre = " $t0 = c20tick(0);"
+		res = "if (c20tick(0) == $t0) { $o = 'closure-not-invoked'; } else { " + res + " }"
+	}
+	return fmt.Sprintf("$a = c20a%d(); $b = c20b();%s%s try { $r = %s(%s); %s } catch (\\Throwable $e) { $o = c20e($e); } c20o('%d ' . $o, $rep);\n",
+		arrIndex(arr.ID), subj, pre, fn, sh.Args, res, n)
 }
 
 // the program of a list of calls, each made `reps` times
@@ -246,7 +294,7 @@ func reorderProgram(calls []reorderCall1, reps int) string {
 	for n, cl := range calls {
 		arr, _ := findArr(cl.Arr)
 		sh, _ := findShape(cl.Shape)
-		sb.WriteString(reorderCall(n, cl.Fn, arr, sh))
+		sb.WriteString(reorderCall(n, cl.Fn, arr, sh, cl.Guard))
 	}
 	sb.WriteString("}\n")
 	return sb.String()
@@ -254,9 +302,14 @@ func reorderProgram(calls []reorderCall1, reps int) string {
 
 type reorderCall1 struct {
 	Fn, Arr, Shape string
+	Guard          bool
 }
 
 type reorderProg struct {
+	full  bool // the full matrix
+	inner int
+	procs int // fresh processes
+	vms   int // fresh VMs
 	fn    string
 	p     *prog
 	calls []reorderCall1
@@ -289,12 +342,34 @@ func findShape(id string) (argShape, bool) {
 	return argShape{}, false
 }
 
-// reorderFunctions: which registered functions the stream calls
-func reorderFunctions(t fnTable, sortFacts []sortFactLine) ([]fnInfo, []string) {
-	var sel []fnInfo
+// notCalled: registered functions the stream does not call although they take arguments, by what their
+// contract is (not by what their implementation does): they end, suspend or fork the run, or act on the
+// process, so that a program calling them 11 times in a row is not a sequential, input-free program any
+// more. Everything else is left out only by the corpus filter's rules (time, randomness, process identity,
+// concurrency, network, file writes and commands, stdin — `exclusions`), applied to the function's name.
+var notCalled = map[string]string{
+	"exit": "ends the run", "die": "ends the run",
+	"umask":        "changes the process's file-mode mask (process state, like cwd / environment)",
+	"run_php_file": "runs another file",
+	"eval":         "runs its argument as a program",
+	"gg":           "debug helper: dumps and ends the run",
+	"dump":         "debug helper: prints Go-level representations",
+	"fclose":       "closes a stream of the process", "fflush": "acts on a stream of the process",
+	"stream_get_contents":   "reads a stream of the process",
+	"cli_set_process_title": "changes the process title",
+}
+
+type reorderFn struct {
+	fnInfo
+	Full bool // the full matrix (16 flag values): implemented in std/php/array or holding a sort fact
+}
+
+// reorderFunctions: which registered functions the stream calls — all of them (round 6)
+func reorderFunctions(t fnTable, sortFacts []sortFactLine) ([]reorderFn, []string) {
+	var sel []reorderFn
 	var skipped []string
 	for _, f := range t.Funcs {
-		in := strings.HasSuffix(f.PkgPath, "/std/php/array")
+		full := strings.HasSuffix(f.PkgPath, "/std/php/array")
 		for _, s := range sortFacts {
 			// "std/php/core/strtr.go" + "StrtrFunction.Call" ↔ package path …/std/php/core, type StrtrFunction
 			recv := s.Fn
@@ -302,17 +377,18 @@ func reorderFunctions(t fnTable, sortFacts []sortFactLine) ([]fnInfo, []string) 
 				recv = recv[:i]
 			}
 			if recv == f.GoType && strings.HasSuffix(f.PkgPath, "/"+filepath.Dir(s.File)) {
-				in = true
+				full = true
 			}
-		}
-		if !in {
-			continue
 		}
 		if why := excluded(f.Name + "("); why != "" {
 			skipped = append(skipped, f.Name+" ("+why+")")
 			continue
 		}
-		sel = append(sel, f)
+		if why, ok := notCalled[strings.ToLower(f.Name)]; ok {
+			skipped = append(skipped, f.Name+" ("+why+")")
+			continue
+		}
+		sel = append(sel, reorderFn{f, full})
 	}
 	return sel, skipped
 }
@@ -351,10 +427,12 @@ func maskClosures(o Outcome) Outcome {
 	return o
 }
 
-// callLines: per call number, the distinct lines the outputs show for it
+// callLines: per call number, the distinct texts the outputs show for it (one text per output: all the
+// lines of that call in the output, in order — a call that keeps state prints several, the same in every run)
 func callLines(outs []string) map[int][]string {
 	m := map[int][]string{}
 	for _, s := range outs {
+		per := map[int]string{}
 		for _, l := range strings.Split(s, "\n") {
 			if !strings.HasPrefix(l, "#") {
 				continue
@@ -363,6 +441,12 @@ func callLines(outs []string) map[int][]string {
 			if _, err := fmt.Sscanf(l, "#%d ", &n); err != nil {
 				continue
 			}
+			if per[n] != "" {
+				per[n] += " ⏎ "
+			}
+			per[n] += l
+		}
+		for n, l := range per {
 			dup := false
 			for _, x := range m[n] {
 				dup = dup || x == l
@@ -396,8 +480,14 @@ func (e *env) reorderStream(m *vh.Model) {
 	}
 	fns, skipped := reorderFunctions(t, facts)
 	if len(fns) == 0 {
-		c.Mismatch(nil, "0 functions", "> 0", "no registered function is implemented in std/php/array any more; reorder stream has nothing to call")
+		c.Mismatch(nil, "0 functions", "> 0", "the registered function table is empty; reorder stream has nothing to call")
 		return
+	}
+	nfull, ncalls := 0, 0
+	for _, f := range fns {
+		if f.Full {
+			nfull++
+		}
 	}
 	// every call is executed inner × (fresh processes + fresh VMs) ≥ the calibrated count of times
 	procRuns, vmRuns := c.N(5, 20), c.N(5, 20)
@@ -405,33 +495,79 @@ func (e *env) reorderStream(m *vh.Model) {
 	if inner < 3 {
 		inner = 3
 	}
+	// the functions outside std/php/array: 8 executions per run × (2 + 2) runs (32 in quick, 8 × (8 + 8) = 128 ≥
+	// the calibrated count in thorough; fewer, longer runs: starting and parsing is half the cost of a short run).
+	// Every round-6 array has ≥ 8 entries that tie and are pairwise distinguishable, so a first- /
+	// last-of-ties reduction shows two results within 30 executions with probability > 1 - 1e-6 (no result has
+	// a share above 1/4); a dependence on the relative order of just two entries (share of the rarer order ≥ 1/8)
+	// is met with probability 0.98 in quick and > 1 - 1e-6 in thorough.
+	innerRest := 8
+	procRest, vmRest := c.N(2, 8), c.N(2, 8)
 	shapes := argShapes()
 	var progs []*reorderProg
 	for _, f := range fns {
 		rp := &reorderProg{fn: f.Name}
 		for _, arr := range tieArrays {
+			if !f.Full && !restArrays[arr.ID] {
+				continue
+			}
 			for _, sh := range shapes {
-				rp.calls = append(rp.calls, reorderCall1{f.Name, arr.ID, sh.ID})
+				if (!f.Full || round6Arrays[arr.ID]) && !sh.Core {
+					continue
+				}
+				rp.calls = append(rp.calls, reorderCall1{f.Name, arr.ID, sh.ID, !f.Full})
 			}
 		}
-		rp.p = &prog{Name: "reorder:" + f.Name, Origin: "reorder", Src: reorderProgram(rp.calls, inner)}
+		rp.full, rp.inner, rp.procs, rp.vms = f.Full, inner, procRuns, vmRuns
+		if !f.Full {
+			rp.inner, rp.procs, rp.vms = innerRest, procRest, vmRest
+		}
+		rp.p = &prog{Name: "reorder:" + f.Name, Origin: "reorder", Src: reorderProgram(rp.calls, rp.inner)}
 		e.materialise(rp.p)
 		if d := os.Getenv("C20_DUMP"); d != "" { // development aid: keep the generated programs
 			os.WriteFile(filepath.Join(d, "reorder_"+f.Name+".php"), []byte(rp.p.Src), 0o644)
 		}
 		progs = append(progs, rp)
 	}
-	c.Note("reorder stream: %d of the %d registered functions (implemented in std/php/array or holding a sort over a map-ordered slice; skipped as random by contract: %s) × %d tie-building arrays × %d argument shapes = %d calls, each executed %d times in a run × (%d fresh processes + %d fresh VMs) = %d times",
-		len(fns), len(t.Funcs), strings.Join(skipped, ", "), len(tieArrays), len(shapes), len(fns)*len(tieArrays)*len(shapes), inner, procRuns, vmRuns, inner*(procRuns+vmRuns))
+	for _, rp := range progs {
+		ncalls += len(rp.calls)
+	}
+	ncore := 0
+	for _, sh := range shapes {
+		if sh.Core {
+			ncore++
+		}
+	}
+	c.Note("reorder stream: %d of the %d registered functions × %d tie-building arrays × argument shapes (%d functions implemented in std/php/array or holding a sort over a map-ordered slice: all %d shapes on every array; the other %d: 7 arrays × the %d shapes without the flag enumeration) = %d calls, each executed %d times in a run × (%d fresh processes + %d fresh VMs) = %d times (full matrix); not called (%d): %s",
+		len(fns), len(t.Funcs), len(tieArrays), nfull, len(shapes), len(fns)-nfull, ncore, ncalls, inner, procRuns, vmRuns, inner*(procRuns+vmRuns), len(skipped), strings.Join(skipped, ", "))
+	c.Note("reorder stream: the %d functions outside std/php/array are executed %d times in a run × (%d fresh processes + %d fresh VMs) = %d times", len(fns)-nfull, innerRest, procRest, vmRest, innerRest*(procRest+vmRest))
 
 	ps := make([]*prog, len(progs))
 	for i, rp := range progs {
 		ps[i] = rp.p
 	}
-	ptallies := procRepeatWith(e.bin, ps, procRuns, c.Workers, maskClosures)
+	// two groups (full matrix / the rest), each with its own number of fresh processes
+	ptallies := make([]*tally, len(ps))
+	for _, full := range []bool{true, false} {
+		var idx []int
+		var grp []*prog
+		reps := procRest
+		if full {
+			reps = procRuns
+		}
+		for i, rp := range progs {
+			if rp.full == full {
+				idx = append(idx, i)
+				grp = append(grp, ps[i])
+			}
+		}
+		for j, t := range procRepeatWith(e.bin, grp, reps, c.Workers, maskClosures) {
+			ptallies[idx[j]] = t
+		}
+	}
 	var jobs []vmJob
 	for i, rp := range progs {
-		jobs = append(jobs, vmJob{ID: i, Files: []string{rp.p.File}, Reps: vmRuns, Dir: rp.p.Dir, MaxMS: 40000, MaskClosures: true})
+		jobs = append(jobs, vmJob{ID: i, Files: []string{rp.p.File}, Reps: rp.vms, Dir: rp.p.Dir, MaxMS: 40000, MaskClosures: true})
 	}
 	vres := runVMJobs(c.Scratch, c.Workers, jobs, 150*time.Second)
 	for i, rp := range progs {
@@ -439,8 +575,8 @@ func (e *env) reorderStream(m *vh.Model) {
 		c.Eval("reorder:"+rp.p.Src, nontrivial(pt))
 		c.Hit("reorder.fn")
 		c.HitN("reorder.calls", len(rp.calls))
-		c.HitN("reorder.call-executions", len(rp.calls)*inner*(procRuns+vmRuns))
-		c.HitN("reorder.proc-runs", procRuns)
+		c.HitN("reorder.call-executions", len(rp.calls)*rp.inner*(rp.procs+rp.vms))
+		c.HitN("reorder.proc-runs", rp.procs)
 		if pt.unbounded() {
 			c.Hit("reorder.unbounded-skipped")
 			c.Note("reorder: the program of %s does not end within the limits in a fresh process; not compared", rp.fn)
@@ -458,18 +594,19 @@ func (e *env) reorderStream(m *vh.Model) {
 			c.Hit("reorder.vm-not-runnable")
 			c.Note("reorder: the program of %s ends or hangs the in-process runner; fresh-process runs only", rp.fn)
 		}
-		c.SampleSome(map[string]any{"function": rp.fn, "calls": len(rp.calls), "inner": inner, "proc_runs": procRuns, "vm_runs": vmRuns, "first_lines": clip(firstOutcome(pt), 300)}, 7)
+		c.SampleSome(map[string]any{"function": rp.fn, "calls": len(rp.calls), "inner": rp.inner, "proc_runs": rp.procs, "vm_runs": rp.vms, "first_lines": clip(firstOutcome(pt), 300)}, 7)
 		var outs []string
 		for _, t := range []*tally{pt, vt} {
 			for _, o := range t.first {
 				outs = append(outs, o.Stdout)
 			}
 		}
-		split := false
-		for _, ls := range callLines(outs) {
-			split = split || len(ls) > 1
-		}
-		if pt.distinct() <= 1 && vt.distinct() <= 1 && !split {
+		// Oracle: the program's observable behaviour is the same in every run. (Round 5 also demanded one result
+		// per call *within* a run; a function that keeps state by contract — define, ini_set, set_exception_handler —
+		// answers its second execution differently, deterministically. Instead every first-seen result is printed
+		// with the number of the repetition that showed it: a result that depends on the order of a map shows up
+		// first in different repetitions of different runs.)
+		if pt.distinct() <= 1 && vt.distinct() <= 1 {
 			continue
 		}
 		e.reorderReport(rp, pt, vt, outs)
@@ -531,7 +668,7 @@ func (e *env) reorderReport(rp *reorderProg, pt, vt *tally, outs []string) {
 				reorderCase{Kind: "reorder", Fn: rp.fn, Src: rp.p.Src, Reps: 20})
 		} else {
 			c.Hit("reorder.difference-only-under-parallel-load")
-			c.Note("reorder: outcomes of the program of %s differed under parallel load but not in 20 serial runs", rp.fn)
+			c.Note("reorder: outcomes of the program of %s differed between successive fresh VMs of one process (a listed residue channel: ini store, autoloaders …) or under parallel load, but not in 20 serial fresh processes", rp.fn)
 		}
 	}
 }
@@ -547,19 +684,15 @@ func (e *env) reorderCheck(rc reorderCase) bool {
 		reps = 20
 	}
 	t := &tally{}
-	within := false
 	for i := 0; i < reps; i++ {
 		o := maskClosures(runProcess(e.bin, p.File, p.Dir, procTimeout))
 		t.add(o, false)
-		for _, ls := range callLines([]string{o.Stdout}) {
-			within = within || len(ls) > 1
-		}
-		if (t.distinct() > 1 || within) && i >= 2 {
+		if t.distinct() > 1 && i >= 2 {
 			break
 		}
 	}
 	c.Eval("reorder1:"+rc.Src, nontrivial(t))
-	if t.unbounded() || (t.distinct() <= 1 && !within) {
+	if t.unbounded() || t.distinct() <= 1 {
 		return false
 	}
 	var all []string
@@ -575,7 +708,7 @@ func (e *env) reorderCheck(rc reorderCase) bool {
 	if rc.Shape == "" {
 		sig = "nondet:reorder:" + rc.Fn + ":program"
 	}
-	c.Violation(sig, fmt.Sprintf("%s(%s) on the array '%s': the same call with the same arguments gives different results (call repeated in one run and in fresh processes): %s", rc.Fn, rc.Shape, rc.Array, clip(strings.Join(results, "  ≠  "), 900)), rc)
+	c.Violation(sig, fmt.Sprintf("%s(%s) on the array '%s': the same call with the same arguments gives different results in fresh processes (the call is repeated in the run; each result is printed with the repetition that first showed it): %s", rc.Fn, rc.Shape, rc.Array, clip(strings.Join(results, "  ≠  "), 900)), rc)
 	return true
 }
 
@@ -603,6 +736,40 @@ func (e *env) closureProbe() {
 			return
 		}
 		c.Violation("nondet:reorder:closure-probe", "the closure probe differs in more than the closure text: "+clip(t.describe(), 600), reorderCase{Kind: "closure", Src: p.Src})
+	}
+}
+
+// panicStackProbe: the known finding C20-go-panic-message-has-stack, confirmed on every run. A Go panic inside a
+// script `try` becomes an exception whose message carries runtime/debug.Stack(): goroutine ids and argument
+// words, i.e. addresses. The reorder programs cut the message at "\nstack: goroutine" (c20e).
+const panicStackSrc = "<?php\ntry { spl_autoload_register([[2, 'a'], [1, 'b']]); echo \"no panic\\n\"; } catch (\\Throwable $e) { echo $e->getMessage(), \"\\n\"; }\n"
+
+var goStackText = regexp.MustCompile(`(?s)\nstack: goroutine.*`)
+
+func (e *env) panicStackProbe() {
+	c := e.c
+	p := &prog{Name: "go-panic-in-try", Origin: "reorder", Src: panicStackSrc}
+	e.materialise(p)
+	t := &tally{}
+	for i := 0; i < 2*e.need; i++ {
+		t.add(runProcess(e.bin, p.File, p.Dir, procTimeout), false)
+		if t.distinct() > 1 {
+			break
+		}
+	}
+	c.Eval("panic-stack-probe:"+p.Src, true)
+	if t.distinct() > 1 {
+		masked := &tally{}
+		for _, o := range t.first {
+			o.Stdout = goStackText.ReplaceAllString(o.Stdout, " [go stack]")
+			masked.add(o, false)
+		}
+		if masked.distinct() == 1 {
+			c.Violation("nondet:addr:go-panic-message-stack", "the message of the exception a Go panic inside `try` is turned into (node/try.go guard) carries runtime/debug.Stack(): argument words of the frames are heap addresses, different from run to run: "+clip(t.firstDiff(), 500),
+				reorderCase{Kind: "panicstack", Src: p.Src})
+			return
+		}
+		c.Violation("nondet:reorder:panic-stack-probe", "the go-panic probe differs in more than the stack text: "+clip(t.describe(), 600), reorderCase{Kind: "panicstack", Src: p.Src})
 	}
 }
 
